@@ -867,6 +867,16 @@ def check_resync(i, op, f, ob, before, specs, bad):
         for a in e.get("assoc", []):
             if a != node and not any(bb.get("name") == e.get("name") and bb.get("key") == e.get("key") and a in bb.get("assoc", []) for bb in before["snap"]):
                 bad("C08", i, f"processing node {node} associated another node {a} with {e.get('name')}")
+    # "reserves nothing beyond that node's own CIDRs" also for the capacity accounting: a pool whose set of used blocks
+    # is what it was has the counter it had (seeded change C08-r5a: only the counter drifts)
+    for e in ob["snap"]:
+        for bb in before["snap"]:
+            if bb.get("name") == e.get("name") and bb.get("key") == e.get("key"):
+                for fam in ("v4", "v6"):
+                    pa, pb = e.get(fam), bb.get(fam)
+                    if pa and pb and sorted(pa["used"]) == sorted(pb["used"]) and pa["count"] != pb["count"]:
+                        bad("C08", i, f"processing node {node}, which has pod CIDRs, moved the allocated counter of {e.get('name')}/{fam} from {pb['count']} to {pa['count']} although its used blocks are the same")
+                break
 
 
 def check_cc_item(i, op, f, ob, before, specs, bad, clauses, del_processed, fin_removed):
